@@ -352,7 +352,7 @@ def generate(seed, tier):
     if r.random() < 0.15:
         # netlink transport faults (send() fails with ENOBUFS / the acknowledgement is lost): not refusals by the kernel
         for _ in range(r.randint(1, 3)):
-            sc['ops'].append({'t': round(r.uniform(1.5, sc['until'] * 0.8), 3), 'op': 'knlfail', 'node': r.choice(names), 'nth': r.randint(1, 3),
+            sc['ops'].append({'t': round(r.uniform(1.5, max(2.0, sc.get('quiet_from', sc['until']) * 0.9)), 3), 'op': 'knlfail', 'node': r.choice(names), 'nth': r.randint(1, 3),
                               'how': r.choice(['send', 'send', 'recv'])})
         sc['ops'].sort(key=lambda x: x['t'])
         sc['meta']['knlfail'] = True
